@@ -98,7 +98,7 @@ def replay_all(ctx, allg, mk, per_arm_cap=None):
         for name, (step, clause, exp, obs, ops) in out:
             if clause.startswith("HARNESS"):
                 ctx.machinery("%s on %s: %s" % (clause, name, ops))
-            tags = ["log_near_pi"] if clause.endswith("|log_near_pi") else []
+            tags = [clause.split("|")[1]] if "|" in clause else []
             ctx.violation(clause.split("|")[0], {"arm": name, "ops": ops, "step": step}, expected=exp, observed=obs, tags=tags)
     return n
 
